@@ -124,11 +124,34 @@ def permuted(gd, rng):
     return out
 
 
-def to_nx(gd):
-    """Build the real y0 NxMixedGraph, honouring the insertion order of the description."""
+def to_nx(gd, mode=None):
+    """Build the real y0 NxMixedGraph, honouring the insertion order of the description.  The construction path is a
+    workload dimension: the add_* mutators, from_edges, from_str_edges, from_adj and from_str_adj (chosen by a
+    hash-seed independent checksum of the description unless ``mode`` is given)."""
     from y0.dsl import Variable
     from y0.graph import NxMixedGraph
 
+    if mode is None:
+        mode = sum(map(ord, "".join(gd["nodes"]) + "".join(a + b for a, b in gd["di"] + gd["bi"]))) % 7
+    V = Variable
+    if mode == 3:
+        return NxMixedGraph.from_edges(nodes=[V(n) for n in gd["nodes"]], directed=[(V(u), V(v)) for u, v in gd["di"]],
+                                       undirected=[(V(u), V(v)) for u, v in gd["bi"]])
+    if mode == 4:
+        return NxMixedGraph.from_str_edges(nodes=list(gd["nodes"]), directed=[tuple(e) for e in gd["di"]],
+                                           undirected=[tuple(e) for e in gd["bi"]])
+    if mode in (5, 6):
+        dadj: dict = {}
+        uadj: dict = {}
+        for u, v in gd["di"]:
+            dadj.setdefault(u, []).append(v)
+        for u, v in gd["bi"]:
+            uadj.setdefault(u, []).append(v)
+        if mode == 5:
+            return NxMixedGraph.from_adj(nodes=[V(n) for n in gd["nodes"]],
+                                         directed={V(k): [V(x) for x in vs] for k, vs in dadj.items()},
+                                         undirected={V(k): [V(x) for x in vs] for k, vs in uadj.items()})
+        return NxMixedGraph.from_str_adj(nodes=list(gd["nodes"]), directed=dadj, undirected=uadj)
     g = NxMixedGraph()
     for n in gd["nodes"]:
         g.add_node(Variable(n))
